@@ -295,6 +295,24 @@ func vrBuild(t int) vrCase {
 			"  let c: Id = " + vrLits[useOut] + ";\n  println(c);\n}\n"
 		return vrCase{code, useIn != inner || useOut != outer, fmt.Sprintf("alias-shadowing outer=%s inner=%s uses %s/%s @%d", vrTypes[outer], vrTypes[inner], vrTypes[useIn], vrTypes[useOut], pos), ""}
 	}
+	if t == 26 { // an element/payload/field type mismatch through a variable: the diagnostic has to point at the offending statement
+		kind, via := nd("kind", 0, 2), nd("via", 0, 2)
+		src := []string{"[1, 2]", "?1", "new { f: 1 }"}[kind]
+		srcT := []string{"[int]", "?int", "{ f: int }"}[kind]
+		dstT := []string{"[str]", "?str", "{ f: str }"}[kind]
+		offending := "let bad: " + dstT + " = v;"
+		var code string
+		switch via {
+		case 0: // a local variable defined by an earlier statement
+			code = vrMain("  let v = " + src + ";\n  println(v);\n  " + offending + "\n  println(bad);\n")
+		case 1: // a parameter
+			code = "fn f(v: " + srcT + ") {\n  " + offending + "\n  println(bad);\n}\n" + vrMain("  f("+src+");\n")
+		default: // the result of a call
+			offending = "let bad: " + dstT + " = mk();"
+			code = "fn mk() -> " + srcT + " { " + src + " }\n" + vrMain("  "+offending+"\n  println(bad);\n")
+		}
+		return vrCase{code: code, faulty: true, what: fmt.Sprintf("container-mismatch kind%d via%d", kind, via), culprit: offending}
+	}
 	return vrCase{vrMain("  println(1);\n"), false, "trivial", ""}
 }
 
@@ -312,7 +330,7 @@ func vsReplaceArg(tmpl, arg string) string {
 	return out
 }
 
-const vrTemplates = 26
+const vrTemplates = 27
 
 func VerifHarness_Rules() {
 	t := errors.VerifNdIntRange("template", 0, vrTemplates-1)
